@@ -46,6 +46,11 @@ fn cpu_and_sleeping(pid: u32) -> Option<(u64, bool)> {
 /// both of its output pipes are being drained and it has no input to wait for. A process that is still
 /// computing after 900 s is an error of the harness (inconclusive), never a verdict.
 pub fn run_cli(cli: &str, args: &[String], wrapper: &[String]) -> Result<Out, String> {
+    run_cli_env(cli, args, wrapper, &[])
+}
+
+/// like `run_cli`, with additional environment variables for the process
+pub fn run_cli_env(cli: &str, args: &[String], wrapper: &[String], envs: &[(&str, &str)]) -> Result<Out, String> {
     use std::io::Read;
     use std::process::Stdio;
     use std::time::{Duration, Instant};
@@ -60,6 +65,9 @@ pub fn run_cli(cli: &str, args: &[String], wrapper: &[String]) -> Result<Out, St
     cmd.args(args);
     cmd.env_remove("RUST_LOG");
     cmd.env("RUST_BACKTRACE", "0");
+    for (k, v) in envs {
+        cmd.env(k, v);
+    }
     cmd.stdin(Stdio::null()).stdout(Stdio::piped()).stderr(Stdio::piped());
     let mut child = cmd.spawn().map_err(|e| format!("cannot run {}: {}", cli, e))?;
     let mut so = child.stdout.take().expect("piped stdout");
@@ -327,6 +335,8 @@ fn c15_run(cfg: &Cfg, rep: &mut Report, case_seed: u64, mut case: SmallCase, cli
             }
             _ => {}
         }
+        // the environment variable the logger documents, too
+        let envs: Vec<(&str, &str)> = if rng.chance(1, 10) { vec![("RUST_LOG", *rng.pick(&["trace", "debug", "adf_bdd=trace", "warn"]))] } else { Vec::new() };
         // model counting output (naive and hybrid mode only): one extra first line
         let counter = lib != "biodivine" && rng.chance(1, 4);
         if counter {
@@ -334,8 +344,8 @@ fn c15_run(cfg: &Cfg, rep: &mut Report, case_seed: u64, mut case: SmallCase, cli
             args.push("nai".into());
         }
         args.push(file.to_string_lossy().to_string());
-        let replay = json!({"property": "c15", "case_seed": case_seed.to_string(), "adf": case.text, "args": args});
-        let out = match run_cli(cli, &args, wrapper) {
+        let replay = json!({"property": "c15", "case_seed": case_seed.to_string(), "adf": case.text, "args": args, "env": envs.iter().map(|(k, v)| format!("{}={}", k, v)).collect::<Vec<_>>()});
+        let out = match run_cli_env(cli, &args, wrapper, &envs) {
             Ok(o) => o,
             Err(e) => {
                 rep.inconclusive.push(e);
